@@ -16,7 +16,7 @@ type MapCodec struct {
 func (m *MapCodec) Read(r *ReadBuf, p unsafe.Pointer) error {
 	// p is a pointer to a map pointer
 	if *(*unsafe.Pointer)(p) == nil {
-		*(*unsafe.Pointer)(p) = m.New(r)
+		*(*unsafe.Pointer)(p) = m.newMap()
 	}
 	mp := *(*unsafe.Pointer)(p)
 
@@ -95,7 +95,13 @@ func (m *MapCodec) Skip(r *ReadBuf) error {
 	return nil
 }
 
+// New allocates a map variable (a nil map) for Read to fill in. Like every
+// other codec's New it returns a pointer to the value, not the value itself.
 func (m *MapCodec) New(r *ReadBuf) unsafe.Pointer {
+	return r.Alloc(pointerType)
+}
+
+func (m *MapCodec) newMap() unsafe.Pointer {
 	return unsafe.Pointer(reflect.MakeMap(m.rtype).Pointer())
 }
 
